@@ -1,4 +1,4 @@
-import N2k.Lemmas.GroupFunctionTop
+import N2k.Lemmas.GroupFunctionPending
 /-!
 # C09 — Group-function (PGN 126208) requests and commands are answered and take effect
 
@@ -392,5 +392,38 @@ theorem C09_heartbeat_refused_outside_limits (g : GSt) (m : Msg) (i : Nat) (d : 
 example : hbWithin 1000 0xffff ∧ hbWithin 60000 6000 ∧ hbOutside 0 0xffff ∧ hbOutside 999 0xffff ∧ hbOutside 60001 0xffff
     ∧ hbOutside 5000 6001 := by
   refine ⟨?_, ?_, ?_, ?_, ?_, ?_⟩ <;> simp [hbWithin, hbOutside]
+
+/-! ## the delayed answer is delivered -/
+
+/-- **C09_delayed_claim_armed.** Serving a 60928 request arms the device's delayed address claim 2 ms from now. -/
+theorem C09_delayed_claim_armed (g : GSt) (i : Nat) (d : Dev) (a : Attr) (hd : g.s.devs[i]? = some d) (ha : g.attrs[i]? = some a) :
+    (perform g i .serve60928).attrs[i]? = some { a with pendingClaim := Sched.fromNow g.s.flavor g.s.now 2 } := by
+  unfold perform; rw [hd, ha]; exact setPendingClaim_self ha 2
+
+/-- **C09_delayed_claim_not_lost.** Whatever else the device answers or is commanded inside the delay window (an
+Acknowledge, PGN lists, product or configuration information, a heartbeat change, an installation description) leaves the
+armed address claim armed; only another 60928 request / command re-arms it. -/
+theorem C09_delayed_claim_not_lost (g : GSt) (i : Nat) (act : Act) (h1 : act ≠ .serve60928)
+    (h2 : ∀ dest data lo up si, act ≠ .cmd60928 dest data lo up si) :
+    ((perform g i act).attrs[i]?).map (·.pendingClaim) = (g.attrs[i]?).map (·.pendingClaim) :=
+  perform_keeps_pendingClaim g i act h1 h2
+
+/-- **C09_delayed_claim_sent.** A claim armed at `t0` is sent by the device's pending-information step of any poll at
+`t0+3 ms` or later (both timer builds, any clock origin, up to 2^31 ms later): one PGN 60928 message with the device's
+current NAME is handed to `SendMsg`, and the timer is disabled (so it is sent once). -/
+theorem C09_delayed_claim_sent (g : GSt) (i : Nat) (d : Dev) (a : Attr) (t0 k : Nat)
+    (hd : g.s.devs[i]? = some d) (ha : g.attrs[i]? = some a)
+    (harm : a.pendingClaim = Sched.fromNow g.s.flavor t0 2) (hnow : g.s.now = t0 + k)
+    (hk : 3 ≤ k) (hk2 : k < 2147483648) (h64 : t0 + k < M64) :
+    (pendingStep g i).s = (sendMsg { g.s with devs := updDev g.s.devs i { d with name := a.name } }
+        (claimMsg { d with name := a.name }) (some i)).1
+    ∧ ((pendingStep g i).attrs[i]?).map (·.pendingClaim) = some (Sched.disabled g.s.flavor) := by
+  apply pendingStep_due g i d a hd ha
+  rw [harm, hnow]; exact fromNow2_due _ t0 k hk hk2 h64
+
+example : ∃ act : Act, act ≠ .serve60928 ∧ ∀ dest data lo up si, act ≠ .cmd60928 dest data lo up si :=
+  ⟨.serveProduct 7 false, by simp, by simp⟩
+/-- value byte 0xff for a commanded instance field is the value "all bits set", not "not commanded" -/
+example : cmdVals [.instanceLower 0xff] (0xff, 0xff, 0xff) = (7, 0xff, 0xff) ∧ cmdVals [.instanceUpper 0xff] (0xff, 0xff, 0xff) = (0xff, 31, 0xff) := by decide
 
 end N2k.C09
